@@ -30,6 +30,8 @@ class PureFunction(object):
         # everytime the objparams are set, it will store the old objparams
         # and indication if the old and new objparams are identical
         self._restore_stack: List[Tuple[List, bool]] = []
+        if _vh.ENABLED:
+            _vh.emit("pf.new", view=self)
 
     def __call__(self, *params):
         return self._fcntocall(*params)
